@@ -10,20 +10,24 @@
    delivers, then the clean end (Done) or the error (Failed); [start_status] is decoder.Start,
    which reads the first block and decodes it only if it is the header block.
 
-   Theorem [then_stops]: once a Scan has returned false, every later Scan returns false, every later
-   Err returns the same value, every later Header reports an error: whatever calls follow. *)
+   Theorem [then_stops]: once a Scan of a scanner that was not closed has returned false, every later
+   Scan returns false, every later Err returns the same value, every later Header reports an
+   error, Close returns: whatever calls follow.  (After a Close in mid-scan Scan returns false too,
+   with the error slot empty: Err then answers ErrScannerClosed, Header no error.) *)
 From Coq Require Import ZArith List Bool Lia.
 From Verif Require Import Framing.Model.
 Import ListNotations.
 Open Scope Z_scope.
 
 Inductive serr := ENil | EEof | EFail.
-Inductive call := KScan | KErr | KHeader.
-Inductive resp (O : Type) := RObj (o : O) | RScanFalse | RErr (nonnil : bool) | RHeader (nonnil : bool).
+Inductive call := KScan | KErr | KHeader | KClose.
+Inductive resp (O : Type) := RObj (o : O) | RScanFalse | RErr (nonnil : bool) | RHeader (nonnil : bool)
+                           | RClosed.
 Arguments RObj {O}.
 Arguments RScanFalse {O}.
 Arguments RErr {O}.
 Arguments RHeader {O}.
+Arguments RClosed {O}.
 
 (* decoder.Start on the input: nil, io.EOF (nothing to read) or another error *)
 Definition start_status {O} (v : variant) (fs : list (frame O)) (avail : Z) : serr :=
@@ -41,25 +45,31 @@ Context {O : Type}.
 Variable start : serr.          (* what Start will answer *)
 Variable fin : serr.            (* what Next answers once the objects are used up: EEof or EFail *)
 
-Record sess := Sess { started : bool; s_err : serr; feed : list O }.
+(* [closed]: Scanner.Close was called (it returns: decoder.Close cancels the context and waits for
+   the goroutines Start has started, none if Start failed).  Close on a scanner that was never
+   started is not modelled (the call scripts do not do it). *)
+Record sess := Sess { started : bool; s_err : serr; feed : list O; closed : bool }.
 
 Definition nonnil (e : serr) : bool := match e with ENil => false | _ => true end.
-Definition err_value (e : serr) : bool := match e with EFail => true | _ => false end.
+(* Scanner.Err: io.EOF is hidden, then the stored error, then ErrScannerClosed *)
+Definition err_value (e : serr) (cl : bool) : bool :=
+  match e with EFail => true | EEof => false | ENil => cl end.
 
 Definition ensure_started (s : sess) : sess :=
-  if started s then s else Sess true start (feed s).
+  if started s then s else Sess true start (feed s) (closed s).
 
 Definition sstep (s : sess) (c : call) : sess * resp O :=
   match c with
   | KScan =>
       let s1 := ensure_started s in
-      if nonnil (s_err s1) then (s1, RScanFalse)
+      if nonnil (s_err s1) || closed s1 then (s1, RScanFalse)
       else match feed s1 with
-           | o :: t => (Sess true ENil t, RObj o)
-           | [] => (Sess true fin [], RScanFalse)
+           | o :: t => (Sess true ENil t false, RObj o)
+           | [] => (Sess true fin [] false, RScanFalse)
            end
-  | KErr => (s, RErr (err_value (s_err s)))
+  | KErr => (s, RErr (err_value (s_err s) (closed s)))
   | KHeader => let s1 := ensure_started s in (s1, RHeader (nonnil (s_err s1)))
+  | KClose => (Sess (started s) (s_err s) (feed s) true, RClosed)
   end.
 
 Fixpoint srun (s : sess) (cs : list call) : list (resp O) :=
@@ -71,46 +81,57 @@ Fixpoint srun (s : sess) (cs : list call) : list (resp O) :=
 (* a session that has stopped: started, the error slot is set *)
 Definition stopped (s : sess) : Prop := started s = true /\ nonnil (s_err s) = true.
 
+(* after the stop: Scan false, Err the same value (the error slot is set, so Close does not change
+   it), Header an error, Close returns *)
 Definition quiet (e : serr) (x : resp O) : Prop :=
-  x = RScanFalse \/ x = RErr (err_value e) \/ x = RHeader true.
+  x = RScanFalse \/ x = RErr (err_value e false) \/ x = RHeader true \/ x = RClosed.
 
-Lemma stopped_step s c : stopped s -> fst (sstep s c) = s /\ quiet (s_err s) (snd (sstep s c)).
+Lemma err_value_set e cl : nonnil e = true -> err_value e cl = err_value e false.
+Proof. destruct e; [discriminate|reflexivity|reflexivity]. Qed.
+
+Lemma stopped_step s c : stopped s ->
+  stopped (fst (sstep s c)) /\ s_err (fst (sstep s c)) = s_err s /\ quiet (s_err s) (snd (sstep s c)).
 Proof.
   intros [Hs He]. destruct c; unfold sstep, ensure_started; rewrite ?Hs, ?He; cbn.
-  - split; [reflexivity|left; reflexivity].
-  - split; [reflexivity|right; left; reflexivity].
-  - split; [reflexivity|right; right; reflexivity].
+  - repeat split; try assumption. left; reflexivity.
+  - repeat split; try assumption. right; left. rewrite (err_value_set _ _ He). reflexivity.
+  - repeat split; try assumption. right; right; left; reflexivity.
+  - repeat split; try assumption. right; right; right; reflexivity.
 Qed.
 
-Lemma stopped_run s cs : stopped s -> Forall (quiet (s_err s)) (srun s cs).
+Lemma stopped_run : forall cs s, stopped s -> Forall (quiet (s_err s)) (srun s cs).
 Proof.
-  intros H. induction cs as [|c r IH]; [constructor|].
-  cbn [srun]. destruct (stopped_step s c H) as [E Q]. destruct (sstep s c) as [s' x]. cbn in E, Q.
-  subst s'. constructor; assumption.
+  induction cs as [|c r IH]; intros s H; [constructor|].
+  cbn [srun]. destruct (stopped_step s c H) as (S' & E & Q). destruct (sstep s c) as [s' x]. cbn in S', E, Q.
+  constructor; [exact Q|]. rewrite <- E. apply IH. exact S'.
 Qed.
 
 Hypothesis fin_set : nonnil fin = true.
 
-Lemma scan_false_stops s s' : sstep s KScan = (s', RScanFalse) -> stopped s'.
+Lemma scan_false_stops s s' : closed s = false -> sstep s KScan = (s', RScanFalse) -> stopped s'.
 Proof.
-  unfold sstep. destruct (nonnil (s_err (ensure_started s))) eqn:E.
+  intros Hc. unfold sstep.
+  assert (Hc' : closed (ensure_started s) = false).
+  { unfold ensure_started. destruct (started s); exact Hc. }
+  rewrite Hc', orb_false_r. destruct (nonnil (s_err (ensure_started s))) eqn:E.
   - intros H. inversion H; subst. split; [|exact E].
     unfold ensure_started. destruct (started s) eqn:Es; [exact Es|reflexivity].
   - destruct (feed (ensure_started s)); intros H; inversion H; subst. split; [reflexivity|exact fin_set].
 Qed.
 
 (* THEN STOPS *)
-Theorem then_stops : forall s s' cs, sstep s KScan = (s', RScanFalse) ->
+(* the first Scan that returns false on a scanner that was not closed sets the error slot *)
+Theorem then_stops : forall s s' cs, closed s = false -> sstep s KScan = (s', RScanFalse) ->
   Forall (quiet (s_err s')) (srun s' cs).
-Proof. intros s s' cs H. apply stopped_run. exact (scan_false_stops s s' H). Qed.
+Proof. intros s s' cs Hc H. apply stopped_run. exact (scan_false_stops s s' Hc H). Qed.
 
 (* a Scan loop on a fresh scanner returns the decoder's objects, then false *)
-Lemma scan_loop : forall (l : list O) s, started s = true -> s_err s = ENil -> feed s = l ->
+Lemma scan_loop : forall (l : list O) s, started s = true -> s_err s = ENil -> closed s = false -> feed s = l ->
   srun s (repeat KScan (S (length l))) = map (@RObj O) l ++ [RScanFalse].
 Proof.
-  induction l as [|o t IH]; intros s Hs He Hf.
-  - cbn. unfold ensure_started. rewrite Hs, He, Hf. reflexivity.
-  - cbn [length repeat srun]. unfold sstep, ensure_started. rewrite Hs, He, Hf. cbn [nonnil map app].
+  induction l as [|o t IH]; intros s Hs He Hc Hf.
+  - cbn. unfold ensure_started. rewrite Hs, He, Hc, Hf. reflexivity.
+  - cbn [length repeat srun]. unfold sstep, ensure_started. rewrite Hs, He, Hc, Hf. cbn [nonnil orb map app].
     f_equal. apply IH; reflexivity.
 Qed.
 
@@ -125,12 +146,13 @@ Qed.
 
 (* whatever was called before (cs1) and whatever is called after (cs2) *)
 Theorem then_stops_any : forall s cs1 cs2,
+  closed (sfinal s cs1) = false ->
   snd (sstep (sfinal s cs1) KScan) = RScanFalse ->
   exists e ys, srun s (cs1 ++ KScan :: cs2) = srun s cs1 ++ RScanFalse :: ys /\ Forall (quiet e) ys.
 Proof.
-  intros s cs1 cs2 H. rewrite srun_app. cbn [srun].
+  intros s cs1 cs2 Hc H. rewrite srun_app. cbn [srun].
   destruct (sstep (sfinal s cs1) KScan) as [s' x] eqn:E. cbn in H. subst x.
-  exists (s_err s'), (srun s' cs2). split; [reflexivity|]. exact (then_stops _ _ cs2 E).
+  exists (s_err s'), (srun s' cs2). split; [reflexivity|]. exact (then_stops _ _ cs2 Hc E).
 Qed.
 
 End Session.
@@ -139,4 +161,4 @@ End Session.
 Definition fin_of (o : outcome) : serr := match o with Done => EEof | _ => EFail end.
 Definition session {O} (fs : list (frame O)) (avail : Z) (cs : list call) : list (resp O) :=
   let r := scan current fs avail in
-  srun (start_status current fs avail) (fin_of (out r)) (Sess false ENil (objects r)) cs.
+  srun (start_status current fs avail) (fin_of (out r)) (Sess false ENil (objects r) false) cs.
